@@ -36,6 +36,7 @@ class CFG:
         self.exit = self._new("exit")
         self.raise_exit = self._new("raise")
         self.branches: dict[int, tuple] = {}  # id(If/While) -> (then, else)
+        self.exc_edges: set = set()   # (node, handler/raise) may-raise edges
         self.of_stmt: dict[int, Node] = {}  # id(ast stmt) -> header node
         self.parent: dict[int, ast.AST] = {}
         self._index_parents(fnode)
@@ -80,6 +81,7 @@ class CFG:
         if ctx.in_try:
             for t in ctx.raise_targets:
                 self._edge(node_id, t)
+                self.exc_edges.add((node_id, t))
 
     def _stmt(self, st, preds: set[int], ctx: "_Ctx") -> set[int]:
         if isinstance(st, ast.If):
@@ -248,6 +250,20 @@ class CFG:
         while cur is not None and not isinstance(cur, ast.stmt):
             cur = self.parent.get(id(cur))
         return cur
+
+    def reachable_after(self, src: int, avoid=frozenset()) -> set[int]:
+        """Nodes reachable once ``src`` has COMPLETED normally (its own
+        may-raise edges are not followed; those of later nodes are)."""
+        seen = set()
+        work = [b for b in self.nodes[src].succ
+                if (src, b) not in self.exc_edges and b not in avoid]
+        while work:
+            n = work.pop()
+            if n in seen or n in avoid:
+                continue
+            seen.add(n)
+            work.extend(self.nodes[n].succ)
+        return seen
 
     def reachable_from(self, src: int, avoid=frozenset()) -> set[int]:
         seen = set()
